@@ -4,20 +4,28 @@ CHECK = {
              "make_mag_field_propagator: geometry (5 orangeinp-built geometries whose volumes are also "
              "written down analytically: box in box, concentric spheres, cylinder shell, box minus "
              "cylinder, rotated+translated daughter universe) x (stepper in {DormandPrince, RK4, ZHelix}, "
-             "field in {uniform x/z/oblique at 1 mT/1 T/100 T, UniformZField, RZ map with uniform and "
-             "with smooth non-uniform content}) x charge x gyroradius/scale (9 decades 1e-4..1e4) x "
-             "driver options (default, tight, loose, max_substeps 1/100, max_nsteps 3, step-control "
-             "exponents) x start configuration (generic interior lattice x 26 directions; near-boundary "
+             "field in {uniform x/z/oblique at 1 mT/1 T/100 T (thorough: also with negative components), B = 0, "
+             "UniformZField, RZ map with uniform content, with smooth non-uniform content and a map smaller "
+             "than the world}) x charge x gyroradius/scale (9 decades 1e-4..1e4) x "
+             "driver options (default, tight, loose, max_substeps 1/100, max_nsteps 3/1/10, bump_distance < "
+             "minimum_step, step-control exponents) x start configuration (generic interior lattice x 26 directions; near-boundary "
              "tangent family h in {5e-7,5e-5,2e-2} x side x angle in {0,+-1e-9,+-1e-6,+-1e-3}; head-on from "
              "within minimum_step..delta_intersection; ON a boundary after linear move + cross with "
              "incidence {0,60,86 deg} and optional set_dir to {1e-3,1e-6,1e-9,-1e-6,0.7} rad off tangent) x "
-             "requested step (0.5*minimum_step, minimum_step, 3*delta_intersection, {1e-3,1,10,1e3} radii) "
-             "x subdivision k in {1,2,5} consecutive calls, crossing boundaries as they are hit. Every "
+             "requested step (0.5*minimum_step, minimum_step, 3*delta_intersection, {1e-3,1,10,1e3} radii; 1e-20 "
+             "and 1e-15 for head-on starts within minimum_step, on-boundary starts without set_dir and one "
+             "interior start) x subdivision k in {1,2,5} consecutive calls, crossing boundaries as they are hit. Every "
              "call is judged by: distance in (0, step(1+1e-12)]; particle momentum unchanged, |dir|=1; "
              "exactly one of full-step/looping/boundary (+ documented bump), result.boundary == "
              "geo.is_on_boundary(), volume unchanged; analytic membership of the end point; end point and "
-             "end direction on the long-double analytic helix (uniform fields), per call and cumulatively; "
-             "32 helix samples for skipped volumes. non-trivial = a trajectory that reached something "
+             "end direction on the long-double analytic helix (uniform fields, B = 0, and the small RZ map "
+             "when the reachable ball lies on one side of the map edge), per call and cumulatively; "
+             "32 helix samples for skipped volumes; a reported landing can be crossed. RZMapField values at "
+             "geometry points, mirror images, the axis, a lattice over and beyond each map and the map "
+             "edges/grid lines +-1 ulp against a long-double re-interpolation of the input tables. "
+             "FieldPropagator::operator()() (no step limit) from interior starts. With max_nsteps in {1,3,10} "
+             "the FieldDriver calls are replayed from the recorded stepper applications and a violation is "
+             "attributed to a trial-loop exhaustion only when it was observed in the judged call. non-trivial = a trajectory that reached something "
              "other than 'one full step off-boundary' (distinct by geometry, stepper/field, options, "
              "radius, start kind and the set of loop/driver branches reached, observed through a "
              "forwarding track-view and a counting stepper). Values between lattice points are not covered."),
@@ -32,6 +40,20 @@ CHECK = {
         "all option sets",
         "the 'bump' after a stuck start on a boundary is the documented degenerate outcome: accepted, and "
         "the trajectory is not followed further",
+        "B = 0 uses a generic length scale (0.9371 x the lattice radius): with round step lengths a straight "
+        "line from the round lattice points ends EXACTLY on a surface (measure zero for curved paths; the exact "
+        "tie belongs to C05, 'internal move rounded onto a surface')",
+        "after a reported landing the harness crosses the boundary with OrangeTrackView::cross_boundary(); a "
+        "failed crossing or a post-crossing volume that does not contain the landing point is reported "
+        "(member:reported-landing-cannot-be-crossed, nav:volume-after-crossing-...) and ends the trajectory",
+        "a sub-resolution step accepted from a start ON a boundary leaves the point on the surface without "
+        "surface state (move_internal to the identical position): the trajectory is not followed further "
+        "(navigation-state problem recorded for C05)",
+        "RZMapField semantics as implemented and commented in RZMapField.hh: B_z linear in z on the grid line "
+        "of the lower r index, B_r linear in r on the grid line of the lower z index, zero outside "
+        "[min_z,max_z] x [min_r,max_r] (ends inclusive); within 8 ulp of a grid line either bin is accepted",
+        "small RZ map: the analytic oracle is applied only when the ball of radius 1.01*step + 1e-4 around the "
+        "call's start is on one side of the map edge (every trial step and Runge-Kutta stage stays inside it)",
         "a set_dir on a boundary closer to the tangent plane than double precision can resolve "
         "(R*theta^2/2 < 1e-13 cm) is treated as exact tangency (measure zero) and skipped",
         "interior lattice points have generic coordinates (no rays exactly through edges/corners or exactly "
@@ -40,15 +62,19 @@ CHECK = {
         "the z axis, positive helicity, dir_y != 0, up to the first boundary landing); the four ways of "
         "leaving it are exercised once each (case ids zhx=1..4) and reported",
     ],
-    "bounds": {"quick": {"stepper_field_pairs": 13, "options": 6, "ratios": 9, "steps": 7, "k": [1, 2, 5],
+    "bounds": {"quick": {"stepper_field_pairs": 15, "options": 9, "ratios": 9, "steps": "7 (+2 sub-resolution)",
+                         "k": [1, 2, 5], "rzmap_value_points": 2970, "nolimit_cases": 2832,
                          "thinning": "checkerboard half of (interior point, direction), of (start, step) "
-                                     "and of (radius, options, charge); 5 tangent angles"},
-               "thorough": {"stepper_field_pairs": 26, "options": 7, "ratios": 9, "steps": 7,
-                            "k": [1, 2, 5],
-                            "thinning": "checkerboard half of (start, step) only; 7 tangent angles"}},
+                                     "with a block-dependent colour, and of (radius, options, charge); "
+                                     "5 tangent angles"},
+               "thorough": {"stepper_field_pairs": 31, "options": 10, "ratios": 9,
+                            "steps": "7 (+2 sub-resolution)", "k": [1, 2, 5],
+                            "thinning": "checkerboard half of (start, step) with a block-dependent colour, "
+                                        "none for head-on and redirected on-boundary starts; 7 tangent "
+                                        "angles"}},
     "parts": [
         {"name": "field", "harness": "c08_field", "flavour": "rel",
-         "shards": {"quick": 16, "thorough": 16}, "deadline": {"quick": 300, "thorough": 2400}},
+         "shards": {"quick": 16, "thorough": 16}, "deadline": {"quick": 600, "thorough": 2400}},
     ],
 }
 
